@@ -2,6 +2,22 @@
 """Regenerate seeded/README.md from the meta/confirm/result files of every seeded change."""
 import os, json, glob
 V = os.path.dirname(os.path.dirname(os.path.abspath(__file__)))
+# changes the property's own check missed when first run, and what was added to the check (then re-run: caught)
+STRENGTHENED = {
+ "C02-1": "C02 had no multi-packet sessions on one state object (C07 and C14 did catch it): valid multi-packet decrypt sessions added",
+ "C05-2": "PBKDF2 outputs stopped at 100 bytes: outputs beyond 255 blocks (8161, 8251 bytes; thorough 16500, 40000) added",
+ "C07-2": "no history reached hmac/kmac/kdf through *_reinit: RE:<seed> variants (prior history on the same object, then reinit) added",
+ "C18-1": "exec-stack note checked only in the default build: every .S is now also preprocessed with no backend selected (empty object must keep the note)",
+ "C13-1": "wipes checked only with MAX_SHARES=4: builds with fewer shares added for the share-independent masked key types",
+ "C01-4": "masked entry points ran only with the default share split: share-configuration builds and an explicit empty-AD / empty-message corner matrix per entry point added",
+ "C02-3": "tag corruptions were single bits / random: equal differences in two tag bytes at word distances added (a (T) obligation for the 128-bit OR is beyond the ANF engine, see DESIGN 8.1)",
+ "C02-4": "masked decrypt ran only with the default share split: share-configuration builds added (C10 also catches it)",
+ "C05-3": "password/salt lengths skipped the 64-byte HMAC block: 63/64/65/128 added",
+ "C07-3": "HKDF streams in C07 were short: splits of the last legal block (255) across calls added (C05 did catch the same mutation)",
+ "C15-4": "the system back end was always substituted: histories with the library's real Linux back end under the getrandom-failing LD_PRELOAD shim added",
+ "C04-3": "PrfShort lengths were in-range: declared lengths up to SIZE_MAX with small buffers added (must be refused untouched)",
+ "C17-4": "hex helper inputs had no white space: added; this also exposed that Model/Cppm.v still described the pre-fix helper (model corrected, DESIGN 8.4)",
+}
 rows = []
 for d in sorted(glob.glob(os.path.join(V, "seeded", "*"))):
     if not os.path.isdir(d):
@@ -14,14 +30,16 @@ for d in sorted(glob.glob(os.path.join(V, "seeded", "*"))):
         if x.get("caught"):
             how += " (no concrete input)" if x.get("no_failing_input") else " with concrete replay"
         res.append("%s %s: %s" % (pid, x.get("tier"), how))
-    rows.append("| %s | %s | %s | %s | %s |" % (os.path.basename(d), (m.get("summary") or "").replace("|", "/")[:220],
-                                               (m.get("configuration") or "default").replace("|", "/")[:60],
-                                               "yes" if c.get("confirmed") else "NO", "; ".join(res) or "not run"))
+    name = os.path.basename(d)
+    rows.append("| %s | %s | %s | %s | %s | %s |" % (name, (m.get("summary") or "").replace("|", "/")[:220],
+                                                    (m.get("configuration") or "default").replace("|", "/")[:60],
+                                                    "yes" if c.get("confirmed") else "NO", "; ".join(res) or "not run",
+                                                    ("first run MISSED; " + STRENGTHENED[name]) if name in STRENGTHENED else ""))
 txt = ["# Seeded changes", "",
        "Each directory holds a change made by a fresh sub-agent that saw only the property text and a scratch worktree of /repo:",
        "`patch.diff`, the demonstration (`demo.sh` + source), `meta.json`; `confirm.json` is my own confirmation (patch applies to /repo's HEAD,",
        "default build, complete ctest passes, demonstration shows the wrong behaviour); `result.json` is the outcome of running the property's",
        "check(s) against the patched tree (`tools/seedtest.py seeded/<name>`; in place: `git -C /repo apply seeded/<name>/patch.diff; ./check <ID>; git -C /repo checkout -- .`).", "",
-       "| change | what it breaks | configuration needed | confirmed | checks |", "|---|---|---|---|---|"] + rows
+       "| change | what it breaks | configuration needed | confirmed | checks (after strengthening) | history |", "|---|---|---|---|---|---|"] + rows
 open(os.path.join(V, "seeded", "README.md"), "w").write("\n".join(txt) + "\n")
 print("\n".join(rows))
